@@ -753,7 +753,8 @@ def est_cases(ctx, job, static_names):
     # a parameter set by set_params keeps the spelling the caller gave it, the constructor stores its canonical form
     # ('Newman' / 'newman', 0 / None): such an attribute is compared through the results it produces, not as a value
     again, _ = W.run_history(dict(fresh_job, np_seed=fresh_job['np_seed'] + (2 if explicit else 0)))
-    set_names = {k for op in job['history'] if op['op'] == 'set' for k in op['params']}
+    set_names = {k for op in job['history'] if op['op'] == 'set' for k, v in op['params'].items()
+                 if not (isinstance(v, dict) and '__est__' in v)}      # (objects are compared by their state)
     if set_names:
         for r in (refit, fresh, again):
             if r['state'] is not None:
@@ -1060,6 +1061,10 @@ def sweep(ctx, est_jobs, fn_jobs, thread_counts, repeats, inproc):
         if isinstance(v, tuple):
             if v[1] == 'timeout':
                 raise subprocess.TimeoutExpired('c16 worker (threads=%s)' % k[0], 240)
+            if isinstance(v[1], int) and v[1] > 0:
+                # the interpreter ended with a Python exception (e.g. the overlay was being rebuilt by another check
+                # while it imported): a failure of the tool, not an outcome of the implementation
+                raise core.ToolFailure('c16 worker (threads=%s) exited with %s: %s' % (k[0], v[1], v[2][-300:]))
             bad.append((None, 'worker-crash', {'threads': k[0], 'rc': v[1], 'stderr': v[2]}))
     bad += _compare_batch(safe, res, inproc_safe)
     if unsafe:
